@@ -278,6 +278,8 @@ CFG = {
     "stages": [stage],
     "rule": ("histories of 1..6 API calls (RunString, Callable, Runtime.New, ExportTo'd func, Try+ForOf, Try+Object.Get, Try, "
              "ClearInterrupt) over generated programs nesting JS calls, try/catch/finally, for-of over instrumented iterators, "
+             "(half of them with a JS return() method whose body itself runs for-of loops / try-finally / generators / probe(), "
+             "often two iteration regions nested and left by one throw), "
              "block scopes, reference assignments, getters, generators, async functions, promise jobs and native functions "
              "calling back (Callable, accessor Get, re-entrant RunString, Try, ForOf), call-depth limit none or 0..64, up to "
              "2 faults (JS throw, GoError, foreign Go panic, Interrupt, deep recursion) at the k-th probe(); after EACH call "
@@ -285,7 +287,8 @@ CFG = {
              "model; non-trivial = some call ended abruptly; distinct = by hash of the case"),
     "theorem_names": ["idle_restored_partial", "idle_restored", "idle_restored_jobs", "history_idle", "nested_entry_restored",
                       "next_run_equivalent", "handleThrow_restores", "handleThrow_idem", "uncatchable_never_caught",
-                      "handleThrow_shrinks", "former_findings_repaired"],
+                      "handleThrow_shrinks", "raise_closes_then_truncates", "close_items_native_log",
+                      "former_findings_repaired", "idle_refuted_F23"],
     "allowed_axioms": [],
     "trusted_base": [
         "Coq 8.16.1 kernel + vm_compute (no native_compute); theorems closed under the global context (no axioms)",
